@@ -467,6 +467,38 @@ pub proof fn lemma_class7_swap(cards: Seq<Card>, i: int, j: int)
     }
 }
 
+// ---------- C11 (L11a'): one relabelled deal.  After a suit relabelling the same seven cards can reach the evaluator in a
+// different order: CardPair::new re-canonicalises the two hole cards (same rank, suits reordered by p) and the deck
+// order of turn and river within a rank changes, so positions (0,1) and/or (5,6) may be exchanged.  The strength is the same.
+pub open spec fn deal_hand(h0: Card, h1: Card, f0: Card, f1: Card, f2: Card, t: Card, r: Card) -> Seq<Card> {
+    seq![h0, h1, f0, f1, f2, t, r]
+}
+
+pub open spec fn rl(c: Card, p: spec_fn(Suit) -> Suit) -> Card { Card(c.0, p(c.1)) }
+
+pub proof fn lemma_deal_relabel(h0: Card, h1: Card, f0: Card, f1: Card, f2: Card, t: Card, r: Card,
+                                p: spec_fn(Suit) -> Suit, q: spec_fn(Suit) -> Suit, flip_hole: bool, flip_tr: bool)
+    requires is_perm(p, q),
+    ensures
+        class7(deal_hand(if flip_hole { rl(h1, p) } else { rl(h0, p) }, if flip_hole { rl(h0, p) } else { rl(h1, p) },
+                         rl(f0, p), rl(f1, p), rl(f2, p),
+                         if flip_tr { rl(r, p) } else { rl(t, p) }, if flip_tr { rl(t, p) } else { rl(r, p) }))
+            == class7(deal_hand(h0, h1, f0, f1, f2, t, r)),
+{
+    let a = deal_hand(h0, h1, f0, f1, f2, t, r);
+    let b = relabel(a, p);
+    lemma_class7_relabel(a, p, q);
+    assert(b =~= deal_hand(rl(h0, p), rl(h1, p), rl(f0, p), rl(f1, p), rl(f2, p), rl(t, p), rl(r, p)));
+    let c = if flip_hole { b.update(0, b[1]).update(1, b[0]) } else { b };
+    if flip_hole { lemma_class7_swap(b, 0, 1); }
+    assert(class7(c) == class7(a));
+    let d = if flip_tr { c.update(5, c[6]).update(6, c[5]) } else { c };
+    if flip_tr { lemma_class7_swap(c, 5, 6); }
+    assert(d =~= deal_hand(if flip_hole { rl(h1, p) } else { rl(h0, p) }, if flip_hole { rl(h0, p) } else { rl(h1, p) },
+                         rl(f0, p), rl(f1, p), rl(f2, p),
+                         if flip_tr { rl(r, p) } else { rl(t, p) }, if flip_tr { rl(t, p) } else { rl(r, p) }));
+}
+
 // ---------- best_of is the minimum of class5 over ALL five-card sub-vectors (first principles at rank level) ----------
 
 pub open spec fn sub_le(a: Seq<u8>, b: Seq<u8>) -> bool {
